@@ -55,6 +55,13 @@ class Gen:
             allv=[]
             for h in hyps: tvars(h,allv)
             self.rules['rule-%d'%i]=(hyps,self.rterm(2,allv))
+        # ground rules: hypotheses and conclusion without any variable; the hypotheses are closed axioms of the database
+        self.grules={}
+        closed=[l for l,t in self.axioms.items() if not tvars(t)]
+        if closed and r.random()<0.5:
+            hs=[self.axioms[l] for l in r.sample(closed,min(len(closed),r.randint(1,2)))]
+            self.grules['grule-0']=(hs,self.rterm(2,[]))
+            self.rules['grule-0']=self.grules['grule-0']
     def make_extras(self):
         """Declarations of the other variable kinds of the translator's dialect (#Variable - element-or-set, split by the
         converter -, #ElementVariable, #SetVariable, #Symbol) and |- axioms over them.  The goal's proof does not use them;
@@ -155,8 +162,13 @@ class Gen:
             a=self.derive(depth-1,leaves); Acl=self.concl(a); X=self.rterm(1,leaves)
             p1=('proof-rule-prop-1',{'ph0':Acl,'ph1':X},[])
             return ('proof-rule-mp',{'ph0':Acl,'ph1':('\\imp',X,Acl)},[p1,a])
+        if self.grules and k<0.55:
+            # a ground rule: each hypothesis is literally a closed axiom
+            label='grule-0'; hs,t=self.rules[label]
+            subs=[(next(l for l,a in self.axioms.items() if a==h),{},[]) for h in hs]
+            return (label,{},subs)
         # generated rule: prove hyps
-        label=r.choice(list(self.rules)); hs,t=self.rules[label]; sigma={}; subs=[]
+        label=r.choice([l for l in self.rules if l not in self.grules]); hs,t=self.rules[label]; sigma={}; subs=[]
         for h in hs:
             if isinstance(h,str):
                 if h in sigma: return self.derive(depth-1,leaves)
